@@ -1,5 +1,6 @@
-use vkit::Check;
+mod c36;
+use vkit::{Check, Level};
 fn main() {
-    let checks: &[Check] = &[];
+    let checks: &[Check] = &[Check { id: "C36", level: Level::Exploration, run: c36::run }];
     vkit::main(checks);
 }
